@@ -167,6 +167,18 @@ class Ctx:
         kind = "exception:%s:%s:%s" % (what, outcome.exc_name, outcome.where)
         self.violation(kind, {"exception": repr(outcome.exc)}, case)
 
+    def normalize(self, what, thunk, case=None):
+        """Convert a value returned by the code under test into plain Python inside the harness.  The conversions never fail on
+        the unchanged tree; a result of the wrong type / shape (None where a number is promised, a ragged array ...) is the
+        code's doing and is reported as a violation, not as a harness error.  Returns None then."""
+        try:
+            return thunk()
+        except HarnessError:
+            raise
+        except (TypeError, ValueError, AttributeError, IndexError, KeyError, OverflowError) as e:
+            self.violation("malformed_result:" + what, {"error": repr(e)[:300]}, case)
+            return None
+
     # ------------------------------------------------------------------ check
     _hit = set()
 
